@@ -22,7 +22,7 @@ from vlib import Inconclusive, log
 TIERS = {
     "quick": dict(gen="MC_RenderGen_c08.cfg", gen_timeout=600, mc_workers=6, renders=3, uninst=25,
                   batch_full_n=4, batch_sample=600, grace="3ms"),
-    "thorough": dict(gen="MC_RenderGen_c08_thorough.cfg", gen_timeout=1800, mc_workers=8, renders=3, uninst=40,
+    "thorough": dict(gen="MC_RenderGen_c08_thorough.cfg", gen_timeout=1800, mc_workers=8, renders=5, uninst=40,
                      batch_full_n=5, batch_sample=0, grace="4ms"),
 }
 RENDER_ARGS = lambda t: ["-n", str(t["renders"]), "-uninst", str(t["uninst"])]
